@@ -5,8 +5,8 @@
    F19-deprecated-input-fields); their former refutation witnesses are kept below as regression
    Examples of the now-true statements. *)
 From Coq Require Import List String Ascii ZArith Bool Permutation.
-From AC Require Import Base.Sexp Base.Strs Base.Json Model.SchemaSrc Model.Loader Model.Introspect Model.TopLevel
-  Proofs.LoaderP Proofs.IntrospectP Proofs.TopLevelP.
+From AC Require Import Base.Sexp Base.Strs Base.Json Gql.Lex Model.SchemaSrc Model.Loader Model.Introspect Model.TopLevel
+  Model.LexTop Proofs.LoaderP Proofs.IntrospectP Proofs.TopLevelP Proofs.LexJoinP Proofs.LexTopP.
 Import ListNotations.
 Local Open Scope string_scope.
 Local Open Scope list_scope.
@@ -159,6 +159,56 @@ Example C19_join_hypotheses_met :
   doc_summaries (d1 ++ d2) = Some [Some (false, "type", "type"); Some (false, "union", "U");
                                    Some (true, "schema", "schema"); Some (false, "directive", "@on")].
 Proof. repeat split. Qed.
+
+(* ===================== A''. the join of the files, at TEXT level ===================== *)
+(* lexing a join: for the structural lexer Gql/Lex.v, a ++ "\n" ++ b lexes to the tokens of a followed
+   by the tokens of b for EVERY text a that lexes (line feeds, comments - also an unterminated comment
+   on the last line -, strings, block strings inside a are all fine; a text ending inside a string or
+   block string does not lex) and every b.  This was a tied assumption in the previous round. *)
+Theorem C19_tokens_join : forall a b ta,
+  tokens a = Some ta ->
+  tokens (a ++ lnl :: b) = match tokens b with Some tb => Some (ta ++ tb) | None => None end.
+Proof. exact tokens_join. Qed.
+Print Assumptions C19_tokens_join.
+
+Theorem C19_tokens_join_all : forall texts tss,
+  Forall2 (fun t ts => tokens t = Some ts) texts tss ->
+  tokens (join_chars texts) = Some (List.concat tss).
+Proof. exact tokens_join_all. Qed.
+
+(* text to definitions (lexer + top-level automaton): the definitions of "\n".join(files) are the
+   definitions of the files, for any number of files that are type-system documents *)
+Theorem C19_text_join_is_concat : forall texts dss,
+  Forall2 (fun t ds => doc_of_text t = Some ds) texts dss ->
+  doc_of_text (join_chars texts) = Some (List.concat dss).
+Proof. exact doc_of_text_join. Qed.
+Print Assumptions C19_text_join_is_concat.
+
+Theorem C19_text_join_summaries : forall texts sss,
+  Forall2 (fun t ss => summaries_of_text t = Some ss) texts sss ->
+  summaries_of_text (join_chars texts) = Some (List.concat sss).
+Proof. exact summaries_of_text_join. Qed.
+
+(* ... and for the loader itself: the text load_dir returns is the document made of the files'
+   definitions in walk order *)
+Theorem C19_loaded_text_definitions : forall tree dss,
+  Forall2 (fun e ds => e_isdir e = false /\ e_defs e <> None /\ doc_of_text (s2l (e_text e)) = Some ds)
+          (walk_sorted tree) dss ->
+  exists text, load_dir tree = inr text /\ doc_of_text (s2l text) = Some (List.concat dss).
+Proof. exact loaded_text_definitions. Qed.
+Print Assumptions C19_loaded_text_definitions.
+
+Example C19_text_join_hypotheses_met :
+  let a := s2l """""""a block
+description"""""" type type implements I & J @d(x: {}) { input: enum }  # trailing comment, no line feed" in
+  let b := s2l "extend schema @a
+directive @on repeatable on FIELD | OBJECT" in
+  summaries_of_text a = Some [Some (false, "type", "type")]%string /\
+  summaries_of_text b = Some [Some (true, "schema", "schema"); Some (false, "directive", "@on")]%string /\
+  summaries_of_text (join_chars [a; b]) =
+    Some [Some (false, "type", "type"); Some (true, "schema", "schema"); Some (false, "directive", "@on")]%string /\
+  tokens (s2l """unterminated") = None.
+Proof. vm_compute. repeat split. Qed.
 
 (* ===================== B. the introspection request ===================== *)
 Theorem C19_headers_resolved : forall en hs xs,
